@@ -363,7 +363,13 @@ func c09CheckCLI(c c09Str, st *stats.Run) error {
 			}
 		}
 		os.WriteFile(filepath.Join(dir, "in.txt"), []byte("x"), 0o644)
-		code, _, stderr = runCLI(dir, env, nil, filepath.Join(bin, "age"), "-r", c.S, "-o", "out.age", "in.txt")
+		if len(c.S)%3 == 0 {
+			// the same string as the only line of a recipients file
+			os.WriteFile(filepath.Join(dir, "recips.txt"), []byte(c.S+"\n"), 0o644)
+			code, _, stderr = runCLI(dir, env, nil, filepath.Join(bin, "age"), "-R", "recips.txt", "-o", "out.age", "in.txt")
+		} else {
+			code, _, stderr = runCLI(dir, env, nil, filepath.Join(bin, "age"), "-r", c.S, "-o", "out.age", "in.txt")
+		}
 		ok = valid("age")
 	} else {
 		os.WriteFile(filepath.Join(dir, "key.txt"), []byte(c.S+"\n"), 0o600)
@@ -428,6 +434,45 @@ func TestC09(t *testing.T) {
 		}
 		if id.String() == id2.String() {
 			return pbt.Failf("C09/print-parse", "two generated identities are the same key %s", id.Recipient().String())
+		}
+		return nil
+	})
+	// many printed keys read back from one file: each comes back as itself
+	pbt.Each(s, "key-lists", func(yield func(int)) {
+		for _, n := range []int{1, 2, 54, 55, 56, 60, 65, 66, 67, 150, 400} {
+			yield(n)
+		}
+		s.St.Exhaust("files of 1..400 printed identities and recipients parsed back by ParseIdentities / ParseRecipients", 11)
+	}, func(n int) error {
+		var ib, rb strings.Builder
+		var wantI, wantR []string
+		for i := 0; i < n; i++ {
+			id, err := age.ParseX25519Identity(refage.Bech32Encode("AGE-SECRET-KEY-", hx.PRG(uint64(3000+i), 32)))
+			if err != nil {
+				return pbt.Failf("C09/valid-rejected", "%v", err)
+			}
+			wantI, wantR = append(wantI, id.String()), append(wantR, id.Recipient().String())
+			ib.WriteString(id.String() + "\n")
+			rb.WriteString(id.Recipient().String() + "\n")
+		}
+		s.St.Case(n > 1, stats.Hash([]byte(fmt.Sprint("keylist", n))), "A:key-list", fmt.Sprintf("A:key-list-beyond-4096-bytes=%v", n >= 55))
+		ids, err := age.ParseIdentities(strings.NewReader(ib.String()))
+		if err != nil || len(ids) != n {
+			return pbt.Failf("C09/print-parse", "a file of %d printed identities parses to %d keys (%v)", n, len(ids), err)
+		}
+		for i, id := range ids {
+			if fmt.Sprint(id) != wantI[i] {
+				return pbt.Failf("C09/print-parse", "identity %d of a file of %d printed identities comes back as another key (%s... instead of %s...)", i, n, fmt.Sprint(id)[:30], wantI[i][:30])
+			}
+		}
+		rs, err := age.ParseRecipients(strings.NewReader(rb.String()))
+		if err != nil || len(rs) != n {
+			return pbt.Failf("C09/print-parse", "a file of %d printed recipients parses to %d keys (%v)", n, len(rs), err)
+		}
+		for i, r := range rs {
+			if fmt.Sprint(r) != wantR[i] {
+				return pbt.Failf("C09/print-parse", "recipient %d of a file of %d printed recipients comes back as another key", i, n)
+			}
 		}
 		return nil
 	})
